@@ -151,7 +151,7 @@ def gen_model_case(r, i):
 
 # ------------------------------------------------------------------ metamodel cases
 RULE_NAMES = ["Model", "Thing", "Item", "Entry", "Node_1", "Leaf", "Gr\u00fcn", "X", "Port", "Sub2", "Kind", "Ref"]
-LITS = ["'a{'", "'\"'", "'<|>'", "'}'", "'\\\\'", "'kw'", "'?'", "'&<'", "'[x]'", "'->'"]
+LITS = ["'a{'", "'\"'", "'<|>'", "'}'", "'b\\\\n'", "'kw'", "'?'", "'&<'", "'[x]'", "'->'"]
 REGEXES = ["/[a-z]+/", "/\\{[^}]*\\}/", "/\"[^\"]*\"/", "/<\\w+>/", "/a|b/", "/\\d+\\?/", "/&\\w+;/", "/\\\\\\w/"]
 BASE = ["ID", "STRING", "INT", "FLOAT", "BOOL", "NUMBER", "STRICTFLOAT"]
 
